@@ -251,13 +251,16 @@ func checkC11(c caseC11, rec *ev.Rec) *ev.Failure {
 	var res hostile.Result
 	select {
 	case res = <-done:
-	case <-time.After(30 * time.Second):
-		// slow or stuck: give it ten times the budget before calling it a stall
+	case <-time.After(6 * time.Second):
+		// slow or stuck (the slowest legitimate case - 8 MiB of output - takes
+		// well under a second): give it ten times the budget before calling it
+		// a stall; the total stays below the deadline of the test process, so
+		// a Read call that never returns is reported, not timed out
 		select {
 		case res = <-done:
-			rec.Class("slow_case(>30s)")
-		case <-time.After(300 * time.Second):
-			return ev.Fail(fmt.Sprintf("%s reader did not return within 330 s on a %d-byte input", c.Fmt, len(data)), "fmt", c.Fmt, "result", "hang")
+			rec.Class("slow_case(>6s)")
+		case <-time.After(60 * time.Second):
+			return ev.Fail(fmt.Sprintf("%s reader did not return within 66 s on a %d-byte input", c.Fmt, len(data)), "fmt", c.Fmt, "result", "hang")
 		}
 	}
 	if res.Fail != "" {
